@@ -41,6 +41,19 @@ class CollRoot(c08.ImgRoot):
         self.n, self.key, self.fam, self.C = n, key, fam, 4
 
 
+class PropCollRoot(c08.ImgRoot):
+    """a root that supplies its collators by overriding the public `collators` property instead of passing them to __init__"""
+
+    def __init__(self, n, key, fam, collators):
+        KDDataset.__init__(self)
+        self.n, self.key, self.fam, self.C = n, key, fam, 4
+        self.my_collators = collators
+
+    @property
+    def collators(self):
+        return self.my_collators
+
+
 def make_collators(names):
     import kappadata.collators as KC
     out = []
@@ -73,7 +86,7 @@ def build(spec, tmpdir):
         from kappadata.common.datasets.kd_image_folder import KDImageFolder
         ds = KDImageFolder(tmpdir, transform=treg.build(w["t"]))
     elif kind == "collators_only":
-        ds = CollRoot(w["n"], w["key"], "img3", make_collators(w["collators"]))
+        ds = (PropCollRoot if w.get("via") == "property" else CollRoot)(w["n"], w["key"], "img3", make_collators(w["collators"]))
     elif kind == "multiview_pair":
         # one list of view configs handed to an unseeded (train) and a seeded (eval) multi-view wrapper that live side by side
         import kappadata.wrappers as W
@@ -250,6 +263,10 @@ class DigestWrapper(KDWrapper):
         return (-1 if info is None else info.id, h, per)
 
 
+def _first(batch):
+    return batch[0]
+
+
 def check_real_workers(spec):
     from kappadata.wrappers import ModeWrapper
     c08._set_globals(spec["g0"])
@@ -263,10 +280,22 @@ def check_real_workers(spec):
         _init(ds, spec["pre_init"], 0)
     mw = ModeWrapper(DigestWrapper(ds), mode="digest")
 
+    w = spec["w"]
+    sched = any(treg.contains(t, "scheduled") for t in ([w["t"]] if isinstance(w.get("t"), dict) else [])
+                + [c["t"] for c in w.get("configs", []) if isinstance(c.get("t"), dict)])
+    via = spec.get("via") if not sched else None  # (a scheduled transform needs hook arguments the scheduler's loader does not pass)
+
     def run():
         torch.manual_seed(spec["seed_a"])
-        loader = torch.utils.data.DataLoader(mw, batch_size=1, num_workers=2, collate_fn=lambda b: b[0],
-                                             worker_init_fn=partial(mw.worker_init_fn, **HOOK_KW))
+        if via is not None:
+            # the loader the interleaved scheduler builds itself, with and without an explicit prefetch factor
+            from kappadata.samplers import InterleavedSampler
+            sch = InterleavedSampler(main_sampler=torch.utils.data.SequentialSampler(mw), batch_size=1, epochs=1, drop_last=False,
+                                     main_collator=_first)
+            loader = sch.get_data_loader(num_workers=2, prefetch_factor=via or None)
+        else:
+            loader = torch.utils.data.DataLoader(mw, batch_size=1, num_workers=2, collate_fn=lambda b: b[0],
+                                                 worker_init_fn=partial(mw.worker_init_fn, **HOOK_KW))
         out = {}
         for wid, h, per in loader:
             if wid in out and out[wid][0] != h:
@@ -287,7 +316,11 @@ def check_real_workers(spec):
 
 
 # ------------------------------------------------------------------------------------------ strategies
-WITHSCHED = treg.img_composite(depth=3, allow_scheduled=True)
+_LIB = treg.img_composite(depth=3, allow_scheduled=True)
+# mostly library transforms; sometimes a user-written transform that uses the documented per-worker hook, alone or inside a composition
+_USER = st.just({"k": "user_hook"})
+WITHSCHED = st.one_of(_LIB, _LIB, _LIB, _LIB, _USER, st.tuples(_LIB, st.booleans()).map(
+    lambda t: {"k": "compose", "m": ([t[0], {"k": "user_hook"}] if t[1] else [{"k": "user_hook"}, t[0]])}))
 
 
 @st.composite
@@ -322,6 +355,7 @@ def stack(draw, tier, for_real=False):
     names = ["mix", "dino", "pad", "compose", "wrapper", "mae"] + ([] if for_real else ["ijepa"])
     if kind == "collators_only":
         w["collators"] = draw(st.lists(st.sampled_from(names), min_size=1, max_size=3))
+        w["via"] = draw(st.sampled_from(["init", "property"]))
     elif kind != "imagefolder" and draw(st.integers(0, 2)) == 0:
         w["collators"] = draw(st.lists(st.sampled_from(names), min_size=1, max_size=2))
     top = draw(st.lists(st.sampled_from(["pass", "subset", "concat", "concat_rev", "concat_shared", "mode", "interleaved"]), max_size=2))
@@ -334,7 +368,9 @@ def stack(draw, tier, for_real=False):
         top = []
     return {"w": w, "top": top, "g0": draw(st.integers(0, 999)), "seed_a": draw(st.integers(0, 2 ** 31 - 1)),
             "seed_b": draw(st.integers(0, 2 ** 31 - 1)), "rank": draw(st.integers(0, 3)),
-            "pre_init": draw(st.sampled_from([None, None, 7, 12345]))}
+            "pre_init": draw(st.sampled_from([None, None, 7, 12345])),
+            # real-worker facet only: None = a hand-made DataLoader, 0 = the scheduler's own loader, 2/3 = ... with an explicit prefetch factor
+            "via": draw(st.sampled_from([None, None, 0, 2, 3])) if for_real else None}
 
 
 def _distinct(s):
